@@ -1,1 +1,143 @@
 // Kani contract harnesses for /repo/arrow-buffer/src/builder/offset.rs (child module: sees private items via super::)
+use super::*;
+#[path = "/verif/kani/support/spec.rs"]
+mod spec;
+#[allow(unused_imports)]
+use spec::*;
+
+// ---------------------------------------------------------------------------------------------
+// Shared harness helpers (spec side). Nothing here calls the code under test.
+// ---------------------------------------------------------------------------------------------
+
+/// N <= 64 fully symbolic bytes built without a loop (lets a harness use a small unwind bound).
+#[allow(dead_code)]
+fn any_bytes<const N: usize>() -> [u8; N] {
+    let w: (u128, u128, u128, u128) = (kani::any(), kani::any(), kani::any(), kani::any());
+    let full: [u8; 64] = unsafe { std::mem::transmute(w) };
+    let mut out = [0u8; N];
+    out.copy_from_slice(&full[..N]);
+    out
+}
+#[allow(dead_code)]
+fn mask(b: bool) -> u64 { if b { u64::MAX } else { 0 } }
+
+// STUB (listed): `core::ptr::align_offset`, the single address-dependent step of
+// `<[u8]>::align_to::<u64>()`. CBMC cannot constant-fold an address during symbolic execution, so
+// without it every slice length after `align_to` is symbolic (measured: out of memory / > 5 min).
+// The stub returns the exact value of the real function for a pointer whose address is congruent
+// to the harness-supplied skew modulo 8, and it *asserts* that congruence on the real address, so
+// nothing is assumed about the allocator; the rest of the real `align_to` runs unchanged.
+// The k-th call uses ALIGN_SKEWS[k] (control flow is concrete, so k is concrete).
+#[allow(dead_code)]
+static mut ALIGN_SKEWS: [usize; 6] = [0; 6];
+#[allow(dead_code)]
+static mut ALIGN_CALLS: usize = 0;
+#[allow(dead_code)]
+fn set_skews(s: [usize; 6]) { unsafe { ALIGN_SKEWS = s; ALIGN_CALLS = 0; } }
+/// builder for the list of expected `align_to` calls of one harness (bookkeeping only: a wrong
+/// prediction makes the stub's address assertion fail, it can never hide a violation)
+#[derive(Clone, Copy)]
+#[allow(dead_code)]
+struct Skews { s: [usize; 6], n: usize }
+#[allow(dead_code)]
+fn skews() -> Skews { Skews { s: [0; 6], n: 0 } }
+#[allow(dead_code)]
+impl Skews {
+    /// one `align_to` call on a slice that starts `sk` bytes past an 8-byte aligned address
+    fn raw(mut self, sk: usize) -> Self { self.s[self.n] = sk % 8; self.n += 1; self }
+    /// the `align_to` call of `UnalignedBitChunk::new(bytes, off, len)` (made only when the addressed
+    /// byte range is longer than 16 bytes), `bytes` starting `sk` bytes past an 8-byte aligned address
+    fn ubc(self, sk: usize, off: usize, len: usize) -> Self {
+        if len > 0 && (len + off % 8 + 7) / 8 > 16 { self.raw(sk + off / 8) } else { self }
+    }
+    fn install(self) { unsafe { ALIGN_SKEWS = self.s; ALIGN_CALLS = 0; } }
+}
+#[allow(dead_code)]
+unsafe fn stub_align_offset<T>(p: *const T, a: usize) -> usize {
+    assert!(std::mem::size_of::<T>() == 1 && a == 8);
+    let k = unsafe { ALIGN_CALLS };
+    assert!(k < 6);
+    unsafe { ALIGN_CALLS = k + 1 };
+    let skew = unsafe { ALIGN_SKEWS[k] } % a;
+    assert!((p as usize) % a == skew);
+    (a - skew) % a
+}
+macro_rules! inst {
+    ($name:ident, $unwind:expr, $call:expr) => {
+        #[kani::proof]
+        #[kani::unwind($unwind)]
+        #[kani::stub(core::ptr::align_offset, stub_align_offset)]
+        fn $name() { $call }
+    };
+}
+
+fn seq_offsets<const CAP: usize, const K: usize>() {
+    let lens: [u16; K] = kani::any();
+    let mut b = OffsetBufferBuilder::<i32>::new(CAP);
+    assert!(b.len() == 1 && b[0] == 0);
+    let mut sum = 0usize;
+    let mut i = 0;
+    while i < K {
+        b.push_length(lens[i] as usize);
+        sum += lens[i] as usize;
+        assert!(b.len() == i + 2 && b[i + 1] as usize == sum);
+        i += 1;
+    }
+    b.reserve(3);
+    let c = b.finish_cloned();
+    let o = b.finish();
+    // model: prefix sums of the pushed lengths, starting at 0
+    assert!(o.len() == K + 1 && c.len() == K + 1 && o[0] == 0);
+    if K > 0 {
+        let j: usize = kani::any();
+        kani::assume(j < K);
+        assert!(o[j] >= 0 && o[j + 1] - o[j] == lens[j] as i32 && c[j + 1] == o[j + 1]);
+    }
+    kani::cover!(K > 1 && lens[0] == 0 && lens[1] == 65535);
+    kani::cover!(o[K] as usize == sum);
+}
+// Contract (C01) OffsetBufferBuilder::<i32>::{new, push_length, reserve, finish_cloned, finish, deref}:
+// after K pushes of symbolic lengths (each < 2^16) the offsets are exactly the prefix sums starting
+// at 0: K+1 entries, first 0, entry j+1 - entry j == j-th length (hence monotone, non-negative);
+// finish_cloned returns the same offsets.
+// @unit name=obb_offsets_0_3 props=C01 kind=bounded bound=pushes=3_lengths<2^16_symbolic fns=OffsetBufferBuilder::new,OffsetBufferBuilder::push_length,OffsetBufferBuilder::finish,OffsetBufferBuilder::finish_cloned tier=thorough timeout=300 note=not_confirmed_under_load
+inst!(obb_offsets_0_3, 8, seq_offsets::<0, 3>());
+// @unit name=obb_offsets_10_4 props=C01 kind=bounded bound=pushes=4_lengths<2^16_symbolic fns=OffsetBufferBuilder::new,OffsetBufferBuilder::push_length,OffsetBufferBuilder::finish,OffsetBufferBuilder::finish_cloned tier=thorough timeout=300 note=not_confirmed_under_load
+inst!(obb_offsets_10_4, 8, seq_offsets::<10, 4>());
+// @unit name=obb_offsets_0_0 props=C01 kind=bounded bound=pushes=0_lengths<2^16_symbolic fns=OffsetBufferBuilder::new,OffsetBufferBuilder::push_length,OffsetBufferBuilder::finish,OffsetBufferBuilder::finish_cloned tier=thorough timeout=300 note=not_confirmed_under_load
+inst!(obb_offsets_0_0, 8, seq_offsets::<0, 0>());
+
+fn seq_overflow<const K: usize>() {
+    let lens: [usize; K] = kani::any();
+    let mut b = OffsetBufferBuilder::<i32>::new(0);
+    let mut sum: u128 = 0;
+    let mut i = 0;
+    while i < K {
+        b.push_length(lens[i]);
+        sum += lens[i] as u128;
+        i += 1;
+    }
+    let o = b.finish();
+    // may-reject reading: if finish returns, no offset wrapped: the total fits i32 and the offsets
+    // are non-decreasing and non-negative
+    assert!(sum <= i32::MAX as u128);
+    let j: usize = kani::any();
+    kani::assume(j < K);
+    assert!(o[j] >= 0 && o[j] <= o[j + 1] && (o[j + 1] - o[j]) as u128 == lens[j] as u128);
+    kani::cover!(o[K] == i32::MAX);
+    kani::cover!(o[K] == 0);
+}
+// Contract (C01) OffsetBufferBuilder::<i32>::{push_length, finish}, overflow direction (may-reject): for
+// arbitrary usize lengths, whenever finish returns the total is <= i32::MAX and every offset
+// difference is the pushed length exactly (no wrapped i32 offset is ever returned); the only other
+// outcome is a panic ("overflow").
+// @unit name=obb_overflow_2 props=C01 kind=bounded bound=pushes=2_lengths_full_usize fns=OffsetBufferBuilder::push_length,OffsetBufferBuilder::finish tier=thorough timeout=300 mayreject=1 note=not_confirmed_under_load
+#[kani::proof]
+#[kani::unwind(8)]
+#[kani::stub(alloc::fmt::format, stub_format)]
+fn obb_overflow_2() { seq_overflow::<2>() }
+// @unit name=obb_overflow_3 props=C01 kind=bounded bound=pushes=3_lengths_full_usize fns=OffsetBufferBuilder::push_length,OffsetBufferBuilder::finish tier=thorough timeout=300 mayreject=1 note=not_confirmed_under_load
+#[kani::proof]
+#[kani::unwind(8)]
+#[kani::stub(alloc::fmt::format, stub_format)]
+fn obb_overflow_3() { seq_overflow::<3>() }
